@@ -8,6 +8,6 @@ for n in $NAMES; do
   [ -f seeded/$n/patch.diff ] || continue
   P=$(python3 -c "import json;print(json.load(open('seeded/$n/meta.json'))['breaks_property'])" 2>/dev/null)
   [ -z "$P" ] && continue
-  out=$(tools/seeded_run.sh $n $P 2>&1 | grep -E "quick:|thorough:" | tail -1)
-  if echo "$out" | grep -q "exit=1"; then echo "$n $P caught"; else echo "$n $P MISSED ($out)" | cut -c1-160; fi
+  out=$(tools/seeded_run.sh $n $P 2>&1)
+  if echo "$out" | grep -q "^VIOLATION"; then echo "$n $P caught"; else echo "$n $P MISSED ($(echo "$out" | grep -E "quick:|thorough:" | tail -1))" | cut -c1-160; fi
 done
